@@ -4,6 +4,7 @@ import (
 	"fmt"
 	"go/ast"
 	"go/token"
+	"go/constant"
 	"go/types"
 	"sort"
 	"strings"
@@ -555,86 +556,96 @@ func typeSwitchTypes(p *Program, fd *ast.FuncDecl) []string {
 }
 
 func ruleENodeSets(p *Program, r *Reporter) {
-	cases, _, why := evaluatorCases(p)
-	if why != "" {
-		r.Unknown(token.NoPos, "dispatcher", why)
+	d := newEvalDom(p)
+	if d.why != "" {
+		r.Unknown(token.NoPos, "evaluator model", d.why)
 		return
 	}
-	var sliceNodes, projNodes []string
-	for _, ci := range cases {
-		analyseClause(p, ci)
-		switch ci.helper {
-		case "slice", "sliceStep":
-			sliceNodes = append(sliceNodes, ci.name)
-		case "projectArray", "filterAndProjectArray", "flattenAndProjectArray":
-			projNodes = append(projNodes, ci.name)
+	names, forms := sortedForms(p)
+	rm := p.roles()
+	short := func(fn *ssa.Function) string {
+		c := rm.canon[fn]
+		if i := strings.LastIndex(c, "."); i >= 0 {
+			return c[i+1:]
 		}
+		return fn.Name()
+	}
+	// what the dispatcher does with each node type
+	var sliceNodes, projNodes []string
+	for _, n := range names {
+		outs, e := d.run(forms[n])
+		if e.Aborted != "" {
+			continue
+		}
+		helper := ""
+		for _, o := range outs {
+			if o.Panic || o.Cut {
+				continue
+			}
+			pf := d.facts(o)
+			if (pf.Err == "" || strings.HasPrefix(pf.Err, "h")) && len(pf.Calls) == 1 {
+				helper = short(pf.Calls[0].Fn)
+			}
+		}
+		switch helper {
+		case "slice", "sliceStep":
+			sliceNodes = append(sliceNodes, n)
+		case "projectArray", "filterAndProjectArray", "flattenAndProjectArray":
+			projNodes = append(projNodes, n)
+		}
+	}
+	// what each node predicate answers for each node type (the predicate is interpreted on a node of that dynamic type)
+	answers := func(fn *ssa.Function) ([]string, string) {
+		var yes []string
+		for _, n := range names {
+			e := newEngine(p, scopeDom{})
+			st := newState()
+			var nv AV = avIface{dyn: forms[n], v: avPtr{e.NewObj("", derefType(forms[n])), ""}}
+			if _, isPtr := forms[n].(*types.Pointer); !isPtr {
+				nv = avIface{dyn: forms[n], v: avStruct{f: map[string]AV{}}}
+			}
+			outs := e.Run(fn, []AV{nv}, st)
+			if len(outs) != 1 || outs[0].Panic || outs[0].Cut || len(outs[0].Res) != 1 {
+				return nil, fmt.Sprintf("%s(%s) has %d paths", fn.Name(), n, len(outs))
+			}
+			c, ok := outs[0].Res[0].(avConst)
+			if !ok {
+				return nil, fmt.Sprintf("%s(%s) is not a constant", fn.Name(), n)
+			}
+			if constant.BoolVal(c.v) {
+				yes = append(yes, n)
+			}
+		}
+		sort.Strings(yes)
+		return yes, ""
 	}
 	sort.Strings(sliceNodes)
 	sort.Strings(projNodes)
-	if fd := p.FuncDecl(p.Eval, "", "isSliceNode"); fd != nil {
-		got := typeSwitchTypes(p, fd)
-		if strings.Join(got, ",") == strings.Join(sliceNodes, ",") {
-			r.OK(fd.Pos(), "isSliceNode", "names exactly the nodes evaluated by slice/sliceStep: "+strings.Join(got, ","))
-		} else {
-			r.Bad(fd.Pos(), "isSliceNode", "names "+strings.Join(got, ",")+" but the nodes evaluated by slice/sliceStep are "+strings.Join(sliceNodes, ",")+": a slice of a string in the missing form is projected (null) instead of returned")
+	if fn := p.RoleFunc("evaluator", "", "isSliceNode"); fn != nil {
+		got, why := answers(fn)
+		switch {
+		case why != "":
+			r.Unknown(fn.Pos(), "isSliceNode", why)
+		case strings.Join(got, ",") == strings.Join(sliceNodes, ","):
+			r.OK(fn.Pos(), "isSliceNode", "true for exactly the nodes evaluated by slice/sliceStep: "+strings.Join(got, ","))
+		default:
+			r.Bad(fn.Pos(), "isSliceNode", "true for "+strings.Join(got, ",")+" but the nodes evaluated by slice/sliceStep are "+strings.Join(sliceNodes, ",")+": a slice of a string in the missing form is projected (null) instead of returned")
 		}
 	} else {
-		r.Trivial(token.NoPos, "isSliceNode", "no isSliceNode predicate in the evaluator (the string bypass is checked below)")
+		r.Trivial(token.NoPos, "isSliceNode", "the array projection case has no node predicate (no string bypass; D-DISPATCH decides the case)")
 	}
-	if fd := p.FuncDecl(p.Parser, "", "isProjectNode"); fd != nil {
-		got := typeSwitchTypes(p, fd)
-		if strings.Join(got, ",") == strings.Join(projNodes, ",") {
-			r.OK(fd.Pos(), "isProjectNode", "names exactly the nodes evaluated by a projecting helper: "+strings.Join(got, ","))
-		} else {
-			r.Bad(fd.Pos(), "isProjectNode", "names "+strings.Join(got, ",")+" but the projecting nodes are "+strings.Join(projNodes, ",")+": a selector after the missing node pipes instead of continuing the projection (or the reverse)")
+	if fn := p.RoleFunc("parser", "", "isProjectNode"); fn != nil {
+		got, why := answers(fn)
+		switch {
+		case why != "":
+			r.Unknown(fn.Pos(), "isProjectNode", why)
+		case strings.Join(got, ",") == strings.Join(projNodes, ","):
+			r.OK(fn.Pos(), "isProjectNode", "true for exactly the nodes evaluated by a projecting helper: "+strings.Join(got, ","))
+		default:
+			r.Bad(fn.Pos(), "isProjectNode", "true for "+strings.Join(got, ",")+" but the projecting nodes are "+strings.Join(projNodes, ",")+": a selector after the missing node pipes instead of continuing the projection (or the reverse)")
 		}
 	} else {
-		r.Unknown(token.NoPos, "isProjectNode", "parser.isProjectNode not found")
-	}
-	// string bypass in the ProjectArrayNode case
-	for _, ci := range cases {
-		if ci.name != "ProjectArrayNode" {
-			continue
-		}
-		found := false
-		for _, st := range ci.clause.Body {
-			ifs, ok := st.(*ast.IfStmt)
-			if !ok {
-				continue
-			}
-			// body returns evaluate(node.Right, left, ...)
-			bypass := false
-			ast.Inspect(ifs.Body, func(n ast.Node) bool {
-				if call, ok := n.(*ast.CallExpr); ok && methodOn(nil, call) == "evaluate" && len(call.Args) == 3 && exprStr(call.Args[0]) == "node.Right" && exprStr(call.Args[1]) != "current" {
-					bypass = true
-				}
-				return true
-			})
-			if !bypass {
-				continue
-			}
-			found = true
-			cond := exprStr(ifs.Cond)
-			if ifs.Init != nil {
-				cond = "init; " + cond
-			}
-			dependsOnNode := false
-			ast.Inspect(ifs.Cond, func(n ast.Node) bool {
-				if id, ok := n.(*ast.Ident); ok && id.Name == "node" {
-					dependsOnNode = true
-				}
-				return true
-			})
-			if dependsOnNode {
-				r.OK(ifs.Pos(), "ProjectArrayNode string bypass", "applying the right-hand side to the whole value is conditional on the node's left operand: `"+cond+"`")
-			} else {
-				r.Bad(ifs.Pos(), "ProjectArrayNode string bypass", "the right-hand side is applied to the whole left value whenever it is a string (`"+cond+"`), whatever produced it: x[*].e on a string x evaluates e on the string instead of yielding null")
-			}
-		}
-		if !found {
-			r.Trivial(ci.clause.Pos(), "ProjectArrayNode string bypass", "no bypass in the array projection case")
-		}
+		r.Unknown(token.NoPos, "isProjectNode", "the parser's node predicate func(Node) bool was not found")
 	}
 }
 
@@ -970,95 +981,79 @@ func ruleEEquality(p *Program, r *Reporter) {
 
 func ruleETruthy(p *Program, r *Reporter) {
 	pk := p.Eval
-	fd := p.FuncDecl(pk, "", "isTrue")
-	if fd == nil {
-		r.Unknown(token.NoPos, "isTrue", "truthiness predicate isTrue not found")
+	truth := p.RoleFunc("evaluator", "", "isTrue")
+	if truth == nil {
+		r.Unknown(token.NoPos, "isTrue", "the truth predicate (the predicate the not case negates) was not found")
 		return
 	}
-	var ts *ast.TypeSwitchStmt
-	ast.Inspect(fd.Body, func(n ast.Node) bool {
-		if x, ok := n.(*ast.TypeSwitchStmt); ok && ts == nil {
-			ts = x
-		}
-		return true
-	})
-	if ts == nil {
-		r.Unknown(fd.Pos(), "isTrue", "isTrue is not a type switch")
-		return
+	// the truth table, by interpreting the predicate on a value of each dynamic type
+	type kind struct {
+		name string
+		t    types.Type
+		want string
 	}
-	bound := ""
-	if as, ok := ts.Assign.(*ast.AssignStmt); ok {
-		bound = exprStr(as.Lhs[0])
+	anyT := types.NewInterfaceType(nil, nil)
+	kinds := []kind{
+		{"nil", nil, "false"},
+		{"bool", types.Typ[types.Bool], "itself"},
+		{"string", types.Typ[types.String], "nonempty"},
+		{"[]any", types.NewSlice(anyT), "nonempty"},
+		{"map[string]any", types.NewMap(types.Typ[types.String], anyT), "nonempty"},
 	}
-	classify := func(cc *ast.CaseClause) string {
-		if len(cc.Body) != 1 {
-			return "?"
+	for _, b := range []types.BasicKind{types.Int, types.Int8, types.Int16, types.Int32, types.Int64, types.Uint, types.Uint8, types.Uint16, types.Uint32, types.Uint64, types.Float32, types.Float64} {
+		kinds = append(kinds, kind{types.Typ[b].Name(), types.Typ[b], "true"})
+	}
+	for _, f := range p.Funcs {
+		// json.Number and decimal128.Decimal: take the types from the signatures of the coercions
+		if isRole(f, "toDecimal") {
+			kinds = append(kinds, kind{"decimal128.Decimal", f.Signature.Results().At(0).Type(), "true"})
 		}
-		ret, ok := cc.Body[0].(*ast.ReturnStmt)
-		if !ok || len(ret.Results) != 1 {
-			return "?"
+	}
+	if jn := lookupNamed(p, "encoding/json", "Number"); jn != nil {
+		kinds = append(kinds, kind{"json.Number", jn, "true|nonempty"})
+	}
+	kinds = append(kinds, kind{"other (foreign Go value)", types.NewStruct(nil, nil), "true"})
+	for _, k := range kinds {
+		key := "isTrue(" + k.name + ")"
+		e := newEngine(p, scopeDom{})
+		st := newState()
+		var arg AV = avNil{}
+		val := avSym{id: e.fresh(), tag: "v"}
+		if k.t != nil {
+			arg = avIface{dyn: k.t, v: val}
 		}
-		s := exprStr(ret.Results[0])
+		outs := e.Run(truth, []AV{arg}, st)
+		if e.Aborted != "" {
+			r.Unknown(truth.Pos(), key, "path enumeration aborted")
+			continue
+		}
+		classes := map[string]bool{}
+		for _, o := range outs {
+			if o.Panic || o.Cut || len(o.Res) != 1 {
+				classes["?"] = true
+				continue
+			}
+			classes[truthClass(o.Res[0], val)] = true
+		}
+		var cl []string
+		for c := range classes {
+			cl = append(cl, c)
+		}
+		sort.Strings(cl)
+		got := strings.Join(cl, "|")
+		ok := false
+		for _, w := range strings.Split(k.want, "|") {
+			if got == w {
+				ok = true
+			}
+		}
 		switch {
-		case s == "true" || s == "false":
-			return s
-		case s == bound:
-			return "itself"
-		case s == "len("+bound+") > 0" || s == "len("+bound+") != 0" || s == bound+` != ""`:
-			return "nonempty"
-		}
-		return "?" + s
-	}
-	want := map[string]string{"nil": "false", "untyped nil": "false", "[]any": "nonempty", "map[string]any": "nonempty", "string": "nonempty", "bool": "itself"}
-	seen := map[string]bool{}
-	for _, c := range ts.Body.List {
-		cc := c.(*ast.CaseClause)
-		cl := classify(cc)
-		for _, e := range cc.List {
-			tn := "nil"
-			if !isNilIdent(pk, e) {
-				tn = typeShort(pk.TypesInfo.TypeOf(e))
-			}
-			seen[tn] = true
-			key := "isTrue(" + tn + ")"
-			switch {
-			case isNumericKind(tn):
-				if cl == "true" || tn == "json.Number" && cl == "nonempty" {
-					r.OK(cc.Pos(), key, "numbers are true-like whatever their value ("+cl+")")
-				} else {
-					r.Bad(cc.Pos(), key, "a number of kind "+tn+" is classified by `"+cl+"`: zero is not false-like and every kind must be treated alike")
-				}
-			case want[tn] != "":
-				if cl == want[tn] {
-					r.OK(cc.Pos(), key, cl)
-				} else {
-					r.Bad(cc.Pos(), key, "classified by `"+cl+"`, the specification says `"+want[tn]+"`")
-				}
-			default:
-				if cl != "true" {
-					r.Bad(cc.Pos(), key, "a value that is not null, false or an empty string/array/object is classified by `"+cl+"`")
-				} else {
-					r.OK(cc.Pos(), key, "true-like")
-				}
-			}
-		}
-		if cc.List == nil {
-			if cl != "true" {
-				r.Bad(cc.Pos(), "isTrue(default)", "other values are classified by `"+cl+"` instead of true")
-			}
-		}
-	}
-	for tn := range want {
-		if tn != "untyped nil" && !seen[tn] {
-			r.Bad(ts.Pos(), "isTrue("+tn+")", "no clause for "+tn+": it falls to the true-like default")
-		}
-	}
-	// the fall-through after the switch must be true
-	if last, ok := fd.Body.List[len(fd.Body.List)-1].(*ast.ReturnStmt); ok && len(last.Results) == 1 {
-		if exprStr(last.Results[0]) == "true" {
-			r.OK(last.Pos(), "isTrue(other)", "every other value is true-like")
-		} else {
-			r.Bad(last.Pos(), "isTrue(other)", "values of other types are not true-like")
+		case ok:
+			r.OK(truth.Pos(), key, got)
+		case k.want == "true":
+			r.Bad(truth.Pos(), key, "a value of kind "+k.name+" is classified by `"+got+"`: numbers of every kind and every other value are true-like whatever their value")
+		default:
+			r.Bad(truth.Pos(), key, "classified by `"+got+"`, the specification says `"+k.want+"`")
 		}
 	}
 	// users: Not/And/Or cases and filter helpers decide with isTrue only
@@ -1091,38 +1086,50 @@ func ruleETruthy(p *Program, r *Reporter) {
 			r.Bad(fn.Pos(), "evaluator."+name+" truth test", "elements are kept under a condition that is not isTrue(predicate result): this filter form uses a different truthiness rule")
 		}
 	}
-	cases, _, _ := evaluatorCases(p)
-	for _, ci := range cases {
-		if ci.name != "NotNode" && ci.name != "AndNode" && ci.name != "OrNode" {
-			continue
+	_ = pk
+}
+
+// truthClass classifies what the truth predicate returns for a value v of one dynamic type.
+func truthClass(res AV, v avSym) string {
+	switch x := res.(type) {
+	case avConst:
+		return x.v.ExactString()
+	case avSym:
+		if avKey(x) == avKey(v) {
+			return "itself"
 		}
-		calls := 0
-		other := ""
-		for _, st := range ci.clause.Body {
-			ast.Inspect(st, func(n ast.Node) bool {
-				switch x := n.(type) {
-				case *ast.CallExpr:
-					if id, ok := x.Fun.(*ast.Ident); ok && id.Name == "isTrue" {
-						calls++
-					}
-				case *ast.IfStmt:
-					if errNeqNil(pk, x.Cond) == nil {
-						s := exprStr(x.Cond)
-						if !strings.Contains(s, "isTrue(") {
-							other = s
-						}
-					}
-				}
-				return true
-			})
+	case avCmp:
+		// len(v) > 0, len(v) != 0, v != ""
+		lenOfV := func(a AV) bool {
+			sy, ok := a.(avSym)
+			return ok && sy.tag == "len" && sy.payload != nil && avKey(sy.payload) == avKey(v)
 		}
-		key := "case " + ci.name + " truth test"
-		if calls == 1 && other == "" {
-			r.OK(ci.clause.Pos(), key, "decides with isTrue")
-		} else {
-			r.Bad(ci.clause.Pos(), key, fmt.Sprintf("does not decide truth with exactly one isTrue call (calls=%d, other condition %q)", calls, other))
+		isZero := func(a AV) bool {
+			c, ok := a.(avConst)
+			return ok && (c.v.ExactString() == "0" || c.v.ExactString() == `""`)
+		}
+		if (lenOfV(x.x) || avKey(x.x) == avKey(v)) && isZero(x.y) && (x.op == token.GTR || x.op == token.NEQ) {
+			return "nonempty"
+		}
+		if (lenOfV(x.y) || avKey(x.y) == avKey(v)) && isZero(x.x) && (x.op == token.LSS || x.op == token.NEQ) {
+			return "nonempty"
 		}
 	}
+	return "?" + avKey(res)
+}
+
+// lookupNamed finds a named type of an imported package by path and name.
+func lookupNamed(p *Program, path, name string) types.Type {
+	for _, pk := range p.Pkgs {
+		for _, imp := range pk.Types.Imports() {
+			if imp.Path() == path {
+				if o := imp.Scope().Lookup(name); o != nil {
+					return o.Type()
+				}
+			}
+		}
+	}
+	return nil
 }
 
 // ---------------------------------------------------------------- E-ANDOR-OPERAND
